@@ -384,7 +384,7 @@ func (m Media) Marshal() ([]byte, error) {
 	ret += "#EXT-X-MEDIA-SEQUENCE:" + strconv.FormatInt(int64(m.MediaSequence), 10) + "\n"
 
 	if m.DiscontinuitySequence != nil {
-		ret += "#EXT-X-DISCONTINUITY-SEQUENCE:" + strconv.FormatInt(int64(m.MediaSequence), 10) + "\n"
+		ret += "#EXT-X-DISCONTINUITY-SEQUENCE:" + strconv.FormatInt(int64(*m.DiscontinuitySequence), 10) + "\n"
 	}
 
 	if m.PlaylistType != nil {
